@@ -204,8 +204,28 @@ class Monitor:
         self.notes[f"rebound:{name}"] = n
         return wrapper
 
-    def hook_method(self, cls, attr, post=None, pre=None, name=None):
-        """Hook a method / property / staticmethod / classmethod of a class."""
+    def hook_method(self, cls, attr, post=None, pre=None, name=None, overrides=False):
+        """Hook a method / property / staticmethod / classmethod of a class.
+
+        ``overrides=True`` also hooks every override of ``attr`` that an already imported subclass from the
+        library defines in its own ``__dict__`` (a subclass that starts to override a base-class method - a
+        cache in front of it, say - must not escape the monitor that was put on the base class)."""
+        if overrides:
+            seen = set()
+            stack = list(cls.__subclasses__())
+            while stack:
+                sub = stack.pop()
+                if sub in seen:
+                    continue
+                seen.add(sub)
+                stack.extend(sub.__subclasses__())
+                if not getattr(sub, "__module__", "").startswith("orquestra.quantum"):
+                    continue
+                raw_sub = sub.__dict__.get(attr)
+                fn = raw_sub.fget if isinstance(raw_sub, property) else getattr(raw_sub, "__func__", raw_sub)
+                if raw_sub is not None and not hasattr(fn, "__rv_orig__"):
+                    self.hook_method(sub, attr, post=post, pre=pre, name=name or f"{cls.__name__}.{attr}")
+                    self.notes[f"override-hooked:{sub.__name__}.{attr}"] = 1
         raw = None
         for klass in cls.__mro__:
             if attr in klass.__dict__:
